@@ -156,7 +156,7 @@ class InsightsUploadConf(object):
                     raise RuntimeError('ERROR: Unknown key in remove.conf: ' + item +
                                        '\nValid keys are ' + ', '.join(expected_keys) + '.')
                 if six.PY3:
-                    rm_conf[item] = [v.strip() for v in value.strip().encode('utf-8').decode('unicode-escape').split(',')]
+                    rm_conf[item] = [v.strip() for v in value.strip().encode('latin-1', 'backslashreplace').decode('unicode-escape').split(',')]
                 else:
                     rm_conf[item] = [v.strip() for v in value.strip().decode('string-escape').split(',')]
             self.rm_conf = rm_conf
